@@ -24,3 +24,8 @@ def vswitch(key, value):
     if key in BROKEN:
         raise RuntimeError(f'vswitch: {key} is switched to fail')
     return value
+
+
+def vrecurse(*args):
+    """a formula that exhausts the stack (e.g. a very deep chain)"""
+    raise RecursionError('vrecurse: injected recursion error')
